@@ -6,6 +6,8 @@ import Driver.Seg
 import Driver.Conv
 import Driver.Cmp
 import Driver.DeepCopy
+import Driver.Spec
+import Driver.Val
 /-! Line-protocol driver: one operation per input line, one canonical answer per output line. -/
 
 structure St where
@@ -25,6 +27,8 @@ def step (st : St) (line : String) : St × String :=
   | "zb" :: args => let (z, o) := Driver.Cmp.handle st.zb ("zb" :: args); ({ st with zb := z }, o)
   | "cmp" :: args => let (z, o) := Driver.Cmp.handle st.zb ("cmp" :: args); ({ st with zb := z }, o)
   | "dc" :: args => (st, Driver.DeepCopy.handle args)
+  | "spec" :: args => (st, Driver.Spec.handle args)
+  | "val" :: args => (st, Driver.Val.handle args)
   | "conv" :: args => (st, Driver.Conv.handle args)
   | "prim" :: args => let (z, o) := Driver.Frame.handle st.z ("prim" :: args); ({ st with z := z }, o)
   | "z" :: args => let (z, o) := Driver.Frame.handle st.z ("z" :: args); ({ st with z := z }, o)
